@@ -1,7 +1,7 @@
 (* Flags/Nesting.v — the gate instantiated with C07's context-manager model
    (GV.Ctx.Model: requiredFlags = [flags], RequireCPU = [requireCPU]) and the
    consequence of C07's [flags_monotone]: requirements only grow under nesting. *)
-From Coq Require Import ZArith NArith List Bool String.
+From Coq Require Import ZArith NArith List Bool String Lia.
 From GV Require Import Ctx.Model Ctx.Proofs Flags.Gate.
 Import ListNotations.
 
@@ -31,7 +31,7 @@ Section Nesting.
     - destruct Hk as [<-|[]]; exact Hi.
     - destruct Hk as [<-|Hk]; [exact Hi|].
       assert (Hq : N.testbit (flags q) i = true).
-      { apply (IH q); [|exact Hk|exact Hi].
+      { apply (IH q) with (k := k); [|exact Hk|exact Hi].
         intros above c p below E. apply (H (c0 :: above) c p below). cbn. now rewrite E. }
       assert (E := H [] c0 q l eq_refl). rewrite ldiff_zero_iff in E. now apply E.
   Qed.
@@ -62,7 +62,7 @@ Section Nesting.
     hist_ok os -> In k (parents (run init os)) -> N.testbit (flags k) 2 = true ->
     N.testbit (declared ctx term Lua World f) 2 = false ->
     let c := cur (run init os) in
-    (exists msg, run_go now depth f c l w = (LuaError ctx term Lua World msg, c, l, w)) /\
+    (exists msg, run_go now depth f c l w = (LuaError term msg, c, l, w)) /\
     (forall A prim, safe_io A c prim w = (NotAllowed A, w)).
   Proof.
     intros os k now depth f l w Hos Hk Hi Hd c.
@@ -75,20 +75,20 @@ End Nesting.
 
 (* the hypotheses are satisfiable and the conclusions are not trivial *)
 Example gate_example_blocked :
-  let f := mkGoFunction ctx term unit unit 3%N (fun c l w => (Returned ctx term unit unit, c, l, w)) in
+  let f := mkGoFunction ctx term unit unit 3%N (fun c l w => (Returned term, c, l, w)) in
   let c := pushCtx 0 (mkDef res0 res0 4%N false) root in
-  run_go unit unit 0 0 f c tt tt = (LuaError ctx term unit unit "missing flags: iosafe", c, tt, tt).
+  run_go unit unit 0 0 f c tt tt = (LuaError term "missing flags: iosafe", c, tt, tt).
 Proof. vm_compute. reflexivity. Qed.
 
 Example gate_example_passes :
-  let f := mkGoFunction ctx term unit unit 15%N (fun c l w => (Returned ctx term unit unit, c, l, w)) in
+  let f := mkGoFunction ctx term unit unit 15%N (fun c l w => (Returned term, c, l, w)) in
   let c := pushCtx 0 (mkDef res0 res0 4%N false) root in
-  run_go unit unit 0 0 f c tt tt = (Returned ctx term unit unit, c, tt, tt).
+  run_go unit unit 0 0 f c tt tt = (Returned term, c, tt, tt).
 Proof. vm_compute. reflexivity. Qed.
 
 Example nesting_example :
   let os := [(0%Z, OPush (mkDef res0 res0 4%N false)); (0%Z, OPush (mkDef (mkRes 100 0 0) res0 0%N false))] in
-  hist_ok os /\ N.testbit (flags (cur (run init os))) 2 = true /\ length (parents (run init os)) = 2%nat.
+  hist_ok os /\ N.testbit (flags (cur (run init os))) 2 = true /\ List.length (parents (run init os)) = 2%nat.
 Proof. split; [|vm_compute; auto]. repeat constructor; cbn; unfold res_inr, inr, W; cbn; lia. Qed.
 
 Example names_example : missing_msg 13%N = "missing flags: memsafe iosafe timesafe"%string.
